@@ -12,3 +12,4 @@ import VProps.C03
 #print axioms V.C03.v12_auth_first
 #print axioms V.C03.reparse_same_partial
 #print axioms V.C03.build_checked_partial
+#print axioms V.C03.build_roundtrip
